@@ -301,6 +301,9 @@ func (e *Engine) registerPrims() {
 		noNL(r, t)
 		return StrV{Segs: []Seg{{Atom: t}}}
 	})
+	prim("verifLongName", func(r *Run, fr *frame, a []Value) Value {
+		return r.eng.intrinsics[harnessPkgs[0]+"verifName"](r, fr, a)
+	})
 	prim("verifBytes", func(r *Run, fr *frame, a []Value) Value {
 		n := r.concreteInt(a[1], "verifBytes n")
 		var bs []*Term
@@ -589,8 +592,11 @@ func (e *Engine) registerIntrinsics() {
 	}
 	in["os.Create"] = func(r *Run, fr *frame, a []Value) Value {
 		r.fsCalls = append(r.fsCalls, a[0])
-		return Tuple{Ptr(nil), Iface{}}
+		slot := new(Value)
+		*slot = &fileObj{}
+		return Tuple{Ptr(slot), Iface{}}
 	}
+	in["(*os.File).Close"] = func(r *Run, fr *frame, a []Value) Value { return Iface{} }
 	in[G+"verifFSCalls"] = func(r *Run, fr *frame, a []Value) Value {
 		return SliceV{Data: append([]Value{}, r.fsCalls...)}
 	}
